@@ -2,6 +2,7 @@
 From Coq Require Import Permutation.
 From DoitV Require Import Base Dispatch Runner Parallel DispatchP DispatchInv RunnerTr RunnerP ParallelP OutcomeP.
 From DoitV Require Import AncP HoldP CompleteP TermP LiveP OutcomeSpec OutcomeFunP OutcomeInvP OutcomeSerialP OutcomeParP OutcomeLiveP.
+From DoitV Require Import ParStepP ParLiveP ParTermP ParOutcomeLiveP ParLiveEx.
 Open Scope N_scope.
 
 (* The exit code is a function of the multiset of failure kinds that were reported: whatever order
@@ -169,3 +170,50 @@ Example C08_outcome_nonvacuous :
   In (EFailure 1 kind_dep) (fst (run_serial ex08 (fun _ _ => 0) (fun _ => 0) true false 100 [0])) /\
   fin_fun ex08 false 20 10 0 = Some FIgnore /\ fin_fun ex08 false 20 10 1 = Some (FFail true kind_dep).
 Proof. vm_compute. tauto. Qed.
+
+(* ===== liveness of the parallel runner models (Proofs/ParStepP.v, ParLiveP.v, ParTermP.v, ParOutcomeLiveP.v, by sub-agent) ===== *)
+(* a parallel --continue run over a finite acyclic table that is not interrupted reports every selected task with
+   the outcome of the specification *)
+Theorem C08_parallel_acyclic_right_outcome :
+  forall tasks univ sel, finite_table tasks univ -> (forall k, ~ reach tasks k k) ->
+  forall wake_rank calc_rank always proc nprocs sched fuel,
+  (0 < nprocs)%nat -> (par_enough_fuel tasks univ sel nprocs <= fuel)%nat ->
+  let res := run_parallel tasks wake_rank calc_rank true always proc fuel nprocs sched sel in
+  snd res = 4 \/ forall x, In x sel -> exists r, fin tasks always x r /\ In (PE (ev_of x r)) (fst res).
+Proof. exact parallel_acyclic_right_outcome. Qed.
+Print Assumptions C08_parallel_acyclic_right_outcome.
+
+(* WHOLE OUTCOME for the selected tasks, parallel = serial: same finite acyclic table and selection, --continue,
+   enough fuel, >= 1 worker, every schedule / flavour / oracles: unless an action interrupts one of the runs,
+   every selected task is reported in both, and the final reports of selected tasks are the same events *)
+Theorem C08_parallel_serial_same_final_reports :
+  forall tasks univ sel, finite_table tasks univ -> (forall k, ~ reach tasks k k) ->
+  forall wr1 cr1 wr2 cr2 always proc nprocs sched fuel1 fuel2,
+  (0 < nprocs)%nat -> (par_enough_fuel tasks univ sel nprocs <= fuel1)%nat -> (enough_fuel tasks univ sel <= fuel2)%nat ->
+  let par := run_parallel tasks wr1 cr1 true always proc fuel1 nprocs sched sel in
+  let ser := run_serial tasks wr2 cr2 true always fuel2 sel in
+  snd par = 4 \/ snd ser = 4 \/
+  ((forall x, In x sel -> exists e, is_final_ev x e = true /\ In (PE e) (fst par) /\ In e (fst ser)) /\
+   (forall x e, In x sel -> is_final_ev x e = true -> (In (PE e) (fst par) <-> In e (fst ser)))).
+Proof. exact parallel_serial_same_final_reports. Qed.
+Print Assumptions C08_parallel_serial_same_final_reports.
+
+Theorem C08_parallel_runs_same_final_reports :
+  forall tasks univ sel, finite_table tasks univ -> (forall k, ~ reach tasks k k) ->
+  forall wr1 cr1 wr2 cr2 always proc1 proc2 np1 np2 sched1 sched2 fuel1 fuel2,
+  (0 < np1)%nat -> (0 < np2)%nat ->
+  (par_enough_fuel tasks univ sel np1 <= fuel1)%nat -> (par_enough_fuel tasks univ sel np2 <= fuel2)%nat ->
+  let r1 := run_parallel tasks wr1 cr1 true always proc1 fuel1 np1 sched1 sel in
+  let r2 := run_parallel tasks wr2 cr2 true always proc2 fuel2 np2 sched2 sel in
+  snd r1 = 4 \/ snd r2 = 4 \/
+  forall x e, In x sel -> is_final_ev x e = true -> (In (PE e) (fst r1) <-> In (PE e) (fst r2)).
+Proof. exact parallel_runs_same_final_reports. Qed.
+Print Assumptions C08_parallel_runs_same_final_reports.
+
+Example C08_parallel_whole_outcome_nonvacuous :
+  let par := run_parallel exl (fun _ _ => 0) (fun _ => 0) true false true (exl_fuel 2) 2 [1;1;0;1;1;1;0;1]%nat [0; 3] in
+  let ser := run_serial exl (fun _ _ => 0) (fun _ => 0) true false (enough_fuel exl [0; 1; 2; 3; 4; 5] [0; 3]) [0; 3] in
+  snd par = 2 /\ snd ser = 2 /\
+  In (PE (EFailure 0 kind_unmet)) (fst par) /\ In (EFailure 0 kind_unmet) (fst ser) /\
+  In (PE (EFailure 3 kind_unmet)) (fst par) /\ In (EFailure 3 kind_unmet) (fst ser).
+Proof. exact par_outcome_nonvacuous. Qed.
